@@ -302,6 +302,18 @@ theorem unc_forward (idna : Idna) (host : List Nat) (sl : Nat) (rest : List Nat)
   rw [henc, parse_file_unc idna _ sl _ hbufne hbuf hdrive hsl (fun c hc => by
     have := hsafe c hc; unfold SafeRaw at this; omega)]
 
+theorem uncUrl_plain (hst : Host) (hloc : hst.text ≠ Impl.sLocalhost) :
+    uncUrl hst = { scheme := Impl.sFile, host := some hst } := by
+  unfold uncUrl
+  have : (hst.text == Impl.sLocalhost) = false := by simpa using hloc
+  rw [this]; rfl
+
+theorem uncUrl_hostText (hst : Host) (hloc : hst.text ≠ Impl.sLocalhost) (x : List Nat) :
+    (Impl.parsePath (uncUrl hst) x).hostText = hst.text := by
+  obtain ⟨p, hp⟩ := parsePath_frame (uncUrl hst) x
+  rw [hp, uncUrl_plain hst hloc]
+  rfl
+
 /-- everything url_from_file_path returns for a UNC path, with the shape facts of is_unc_path -/
 theorem from_path_unc (idna : Idna) (s : List Nat) (u : Url)
     (hs : ∀ c ∈ s, Spec.isScalar c = true)
@@ -314,7 +326,7 @@ theorem from_path_unc (idna : Idna) (s : List Nat) (u : Url)
       Impl.isUncPath (winClassify s).1 = some r ∧
       dd ∉ splitOnP Impl.isWindowsSlash r ∧
       Impl.parseHost idna (encR host) false = some hst ∧
-      u = Impl.parsePath (uncUrl hst) (encR (share ++ r)) := by
+      u = Impl.parsePath (uncUrl hst) (encR (share ++ r)) ∧ hst.text ≠ [0x2E] := by
   rw [urlFromFilePath_windows] at h
   by_cases hs0 : s = []
   · rw [if_pos hs0] at h; cases h
@@ -329,6 +341,7 @@ theorem from_path_unc (idna : Idna) (s : List Nat) (u : Url)
     by_cases hbad : dd ∈ splitOnP Impl.isWindowsSlash chk ∨ 0 ∈ chk
     · rw [if_pos hbad] at h; cases h
     rw [if_neg hbad] at h
+    obtain ⟨h, hnd⟩ := rejectDotHost_some h
     simp only [not_or] at hbad
     obtain ⟨host, sl, share, hp, hsl, hne, hne2, hc, -, -, hdrv, hn1, hn2, hrs, h0⟩ := isUncPath_shape _ _ hd
     rw [hp] at hps
@@ -341,7 +354,8 @@ theorem from_path_unc (idna : Idna) (s : List Nat) (u : Url)
       simp only [Option.map_some, Option.some.injEq] at h
       exact ⟨host, sl, share, chk, hst, hp, hsl, hne, hne2,
         fun c hcm => hc c (List.mem_append_left _ hcm), fun c hcm => hc c (List.mem_append_right _ hcm),
-        hdrv, hn1, hn2, hrs, h0, rfl, hbad.1, hph, h.symm⟩
+        hdrv, hn1, hn2, hrs, h0, rfl, hbad.1, hph, h.symm, fun e => hnd (by
+          rw [← h, uncUrl_hostText hst (by rw [e]; decide)]; exact e)⟩
 
 /-! ### GoodTail: constructors, is_unc_path implies it, "." removal keeps it -/
 
@@ -688,8 +702,8 @@ theorem uncRest_joinBs (W' : List (List Nat)) (hc : ∀ t ∈ W', Clean t) : unc
 theorem accept_unc (idna : Idna) (H w0 : List Nat) (W' : List (List Nat)) (hH : HostTextOk H)
     (hW : UncSegs w0 W') (hdd : dd ∉ W') :
     Impl.urlFromFilePath idna (0x5C :: 0x5C :: (H ++ joinBs (w0 :: W'))) .windows =
-      (Impl.parseHost idna (encR H) false).map
-        (fun h => Impl.parsePath (uncUrl h) (encR (w0 ++ joinBs W'))) := by
+      Impl.rejectDotHost ((Impl.parseHost idna (encR H) false).map
+        (fun h => Impl.parsePath (uncUrl h) (encR (w0 ++ joinBs W')))) := by
   have hcl := goodTail_clean W' hW.tail
   have hHb := hH.notBad
   have hwb : uncBad 2 w0 = false := by
@@ -809,12 +823,6 @@ theorem dd_not_winSegs (r : List Nat) (hr : r = [] ∨ ∃ x r', r = x :: r' ∧
     · rw [splitOnP_cons_sep _ _ _ hx] at hdd
       exact hdd (List.mem_cons_of_mem _ h)
 
-theorem uncUrl_plain (hst : Host) (hloc : hst.text ≠ Impl.sLocalhost) :
-    uncUrl hst = { scheme := Impl.sFile, host := some hst } := by
-  unfold uncUrl
-  have : (hst.text == Impl.sLocalhost) = false := by simpa using hloc
-  rw [this]; rfl
-
 /-- the Windows split of the UNC pointer: server, share, the rest -/
 theorem split_pointer (host : List Nat) (sl : Nat) (share r : List Nat) (hh : Clean host) (hc : Clean share)
     (hsl : Impl.isWindowsSlash sl = true)
@@ -835,17 +843,17 @@ theorem roundtrip_unc_core (idna : Idna) (s : List Nat) (u : Url)
     ∃ host share rest hst,
       splitOnP Impl.isWindowsSlash (winClassify s).1 = host :: share :: rest ∧ host ≠ [] ∧
       Impl.parseHost idna (encR host) false = some hst ∧
-      UncSegs (fixShare share) (winSegs rest) ∧ dd ∉ winSegs rest ∧
+      UncSegs (fixShare share) (winSegs rest) ∧ dd ∉ winSegs rest ∧ hst.text ≠ [0x2E] ∧
       (hst.text ≠ Impl.sLocalhost → HostTextOk hst.text →
         Impl.pathFromFileUrl u .windows = some (Spec.utf8Encode (uncNorm hst.text share rest))) := by
-  obtain ⟨host, sl, share, r, hst, hp, hsl, hne, hne2, hch, hcs, hdrv, hn1, hn2, hrs, h0, hunc, hdd, hph, hu⟩ :=
+  obtain ⟨host, sl, share, r, hst, hp, hsl, hne, hne2, hch, hcs, hdrv, hn1, hn2, hrs, h0, hunc, hdd, hph, hu, hnd⟩ :=
     from_path_unc idna s u hs h hcl
   have hps : ∀ c ∈ share ++ r, Spec.isScalar c = true := by
     intro c hc
     apply hs; apply pointer_sub s; rw [hp]
     exact List.mem_append_right _ (List.mem_cons_of_mem _ hc)
   have hW := uncSegs_of share r hps hne2 hcs hn1 hn2 (isUncPath_tail_good _ _ hunc)
-  refine ⟨host, share, uncRest r, hst, ?_, hne, hph, hW, dd_not_winSegs r hrs hdd, ?_⟩
+  refine ⟨host, share, uncRest r, hst, ?_, hne, hph, hW, dd_not_winSegs r hrs hdd, hnd, ?_⟩
   · rw [hp]; exact split_pointer host sl share r hch hcs hsl hrs
   · intro hloc hH
     rw [hu, uncUrl_plain hst hloc,
@@ -882,7 +890,9 @@ theorem fixed_unc_core (idna : Idna) (hst : Host) (w0 : List Nat) (W' : List (Li
     · exact hdd h
   unfold rtWin
   rw [accept_unc idna hst.text w0 W' hH hW hdd, hph]
-  simp only [Option.map_some, Option.bind_some]
+  simp only [Option.map_some]
+  rw [rejectDotHost_of_ne (by rw [uncUrl_hostText hst hloc]; exact hH.notDot)]
+  simp only [Option.bind_some]
   rw [uncUrl_plain hst hloc,
     parsePath_unc _ rfl rfl rfl w0 (joinBs W') hps (fun c hc => (hW.clean c hc).1) hW.notDot hW.notDD hrs hjdd,
     uncRest_joinBs W' hcl, hfs, hws]
